@@ -26,6 +26,8 @@ class ClassInfo(object):
         self.fields['has_' + fname] = parse_type('bool')
     self.listlike = d.get('listlike', None)   # python list used as a fixed record: field names by position
     self.truthy_expr = d.get('truthy_expr', None)  # spec expression for bool(self) of an extern container-like class
+    self.value_key = d.get('value_key', None)   # fields that define ==/hash: instances are dictionary keys by value
+    self.static_fields = dict((k, parse_type(v)) for k, v in d.get('static_fields', {}).items())  # mutable class attributes (singletons)
     self.final = d.get('final', False)       # no subclasses: dynamic class tag is known for every reference of this type
 
 
@@ -49,6 +51,7 @@ class FuncSpec(object):
     g = d.get('guar', None)
     self.guar = ([self.conc] if self.conc else []) if g is None else list(g)   # CONCURRENCY entries this unit must establish
     self.no_exit = d.get('no_exit', False)
+    self.inline_calls = list(d.get('inline_calls', ()))   # callees inlined from source in this unit although they have a contract
     self.literals = dict((k, parse_type(v)) for k, v in d.get('literals', {}).items())  # source text of a literal -> declared type        # the function never returns normally (worker loop)               # name of the CONCURRENCY entry governing the receiver's shared state
     self.pure = d.get('pure', False)
     self.inline = d.get('inline', False)
